@@ -104,6 +104,7 @@ type BatchResult struct {
 	KnownSample map[string]string `json:"known_sample"` // finding id -> one witness
 	CrossNotes  map[string]int64 `json:"cross_notes"`  // passive-monitor observations for other properties
 	CrossSample map[string]string `json:"cross_sample"`
+	CrossCase   map[string]int64 `json:"cross_case,omitempty"` // case index of the first observation of each note
 	HashFile    string           `json:"hash_file"`
 	Exhaustive  []string         `json:"exhaustive"`
 }
@@ -131,7 +132,7 @@ type Ctx struct {
 func NewCtx(prop, tier string, seed int64, batch, nb int, findings []Finding) *Ctx {
 	c := &Ctx{Prop: prop, Tier: tier, Seed: seed, Batch: batch, NBatches: nb, Only: -1, findings: findings}
 	c.res = BatchResult{Property: prop, Batch: batch, Counters: map[string]int64{}, VioCounts: map[string]int64{},
-		KnownCounts: map[string]int64{}, KnownSample: map[string]string{}, CrossNotes: map[string]int64{}, CrossSample: map[string]string{}}
+		KnownCounts: map[string]int64{}, KnownSample: map[string]string{}, CrossNotes: map[string]int64{}, CrossSample: map[string]string{}, CrossCase: map[string]int64{}}
 	c.hashes = map[uint64]bool{}
 	c.maxSamples = 4
 	return c
@@ -260,8 +261,38 @@ func (c *Ctx) CrossNote(prop, what, witness string) {
 	c.res.CrossNotes[k]++
 	if _, ok := c.res.CrossSample[k]; !ok {
 		c.res.CrossSample[k] = clip(witness, 400)
+		c.res.CrossCase[k] = c.curCase
 	}
 }
+
+// GuestResult is what a guest batch (another driver's batch run inside this
+// driver's worker) observed.
+type GuestResult struct {
+	Cases       int64
+	Evaluations int64
+	CrossNotes  map[string]int64
+	CrossSample map[string]string
+	CrossCase   map[string]int64
+	Panicked    bool
+	PanicMsg    string
+}
+
+// RunGuest executes batch `batch` of driver d (at tier `tier`) inside this
+// worker with its own context and returns the passive-monitor observations it
+// made for other properties. The guest's own violations are NOT reported here:
+// they belong to the guest's property and are reported by its own check.
+// c.Only is handed down, so a replay of one guest case re-runs only that case.
+func (c *Ctx) RunGuest(d Driver, tier string, batch int) GuestResult {
+	sub := NewCtx(d.ID(), tier, c.Seed, batch, d.Batches(tier), c.findings)
+	sub.Only = c.Only
+	o := Guard(func() { d.Run(sub) })
+	return GuestResult{Cases: sub.res.Cases, Evaluations: sub.res.Evaluations, CrossNotes: sub.res.CrossNotes,
+		CrossSample: sub.res.CrossSample, CrossCase: sub.res.CrossCase, Panicked: o.Panicked, PanicMsg: o.PanicMsg}
+}
+
+// SetCase lets a driver that relays observations of a guest batch attribute a
+// violation to the guest's case index (so that a replay finds it).
+func (c *Ctx) SetCase(idx int64) { c.curCase = idx }
 
 func clip(s string, n int) string {
 	if len(s) <= n {
